@@ -199,7 +199,9 @@ def build():
                 "replay_cmd_template": "bin/check %s --replay {path}" % p,
                 "engine": "tlc",
                 "level_claimed": {"category": "model_checking", "text": text,
-                                  "design_ref": "DESIGN.md section 4, %s" % p},
+                                  "design_ref": "DESIGN.md section 4, %s; dimensions added later (histories, reuse of "
+                                                "one object, independent objects, argument forms, error paths): "
+                                                "section 12.3c and seeded/%s-*/notes.txt" % (p, p)},
                 "level_note": "Small-scope exhaustive on the TLA+ model (" + mods + "); the implementation is bound by "
                               "trace validation of executions driven by TLC-generated and seeded random cases; "
                               "trusted: " + base,
